@@ -32,6 +32,32 @@ func vSameAttrs(a []Attr, b Attrs) bool {
 	return true
 }
 
+// vAttrVals: the values held by plain (non-group) attribute objects, which
+// loggers share between all their calls.
+func vAttrVals(as Attrs) []any {
+	var out []any
+	for _, a := range as {
+		if _, g := a.(*gkvp); g || a == nil {
+			out = append(out, nil)
+			continue
+		}
+		out = append(out, a.Value())
+	}
+	return out
+}
+
+func vSameVals(a, b []any) bool {
+	if len(a) != len(b) {
+		return false
+	}
+	for i := range a {
+		if a[i] != b[i] {
+			return false
+		}
+	}
+	return true
+}
+
 func VH_C08() {
 	vProduction()
 	flags = LstdFlags &^ Lcaller
@@ -66,10 +92,11 @@ func VH_C08() {
 		root.SetAttrs(NewAttr("p", 1), shared)
 		lg = root.New("child").SetWriter(&recW{0, rec}).SetErrorWriter(&recW{0, rec}).SetAttrs(NewAttr("c", 2))
 	} else {
-		root.SetAttrs(NewAttr("z", 1), NewAttr("y", 2))
+		root.SetAttrs(NewAttr("z", 1), NewAttr("y", 2), NewAttr("k", 0)) // "k" collides with a call-site key below
 	}
 	rootAttrs := vSnapAttrs(root.attrs)
 	lgAttrs := vSnapAttrs(lg.attrs)
+	rootVals, lgVals := vAttrVals(root.attrs), vAttrVals(lg.attrs)
 	gItems := vSnapAttrs(shared.items)
 	var args []any
 	switch vChoose(4) {
@@ -132,6 +159,7 @@ func VH_C08() {
 	vCover("C08:called")
 	vAssert(len(rec.evs) == 1, "C08: exactly one Write")
 	vAssert(vSameAttrs(rootAttrs, root.attrs) && vSameAttrs(lgAttrs, lg.attrs), "C08: the loggers' attribute slices are not modified by the call")
+	vAssert(vSameVals(rootVals, vAttrVals(root.attrs)) && vSameVals(lgVals, vAttrVals(lg.attrs)), "C08: the loggers' attribute objects keep their values (a call-site key equal to a logger key must not overwrite the shared object)")
 	vAssert(vSameAttrs(gItems, shared.items), "C08: a shared group's member slice is not modified by the call")
 	for i := range args {
 		vAssert(args[i] == argsSnap[i] || true, "C08: the argument list is not modified")
